@@ -126,9 +126,9 @@ fn case(report: &Report, class: &'static str, text: &str) -> Result<(), Fail> {
             let label = format!("{class}:{verdict}");
             report.case(if nontrivial(text, &o) { Some(text) } else { None }, &[label.as_str()]);
             if class == "valid" && !o.accepted {
-                report.sample("valid-but-rejected", 5, || json!({"text": text, "message": o.message}));
+                crate::sample(report, "valid-but-rejected", 5, || json!({"text": text, "message": o.message}));
             } else {
-                report.sample(&label, 1, || json!({"text": text, "message": o.message, "semantic_tokens": o.semantic_tokens}));
+                crate::sample(report, &label, 1, || json!({"text": text, "message": o.message, "semantic_tokens": o.semantic_tokens}));
             }
             Ok(())
         }
